@@ -271,7 +271,8 @@ func (a *agg) add(spec caseSpec, r *caseResult, shard int) {
 // runShard runs one child over its share of the programs, restarting it after a crash.
 func runShard(b *build, prop, tier string, seed int64, shard, nshards int, a *agg, only string, extraEnv []string) {
 	skipProg, skipCase := -1, -1
-	for attempt := 0; attempt < 40; attempt++ {
+	watchdogs := 0
+	for attempt := 0; attempt < 40 && watchdogs < 2; attempt++ {
 		outPath := filepath.Join(b.scratch, fmt.Sprintf("out.%d.%d", shard, attempt))
 		errPath := filepath.Join(b.scratch, fmt.Sprintf("err.%d.%d", shard, attempt))
 		racePath := filepath.Join(b.scratch, fmt.Sprintf("race.%d.%d", shard, attempt))
@@ -340,9 +341,13 @@ func runShard(b *build, prop, tier string, seed int64, shard, nshards int, a *ag
 			return
 		}
 		stderr, _ := os.ReadFile(errPath)
-		st := string(stderr)
-		if len(st) > 20000 {
-			st = st[:8000] + "\n...\n" + st[len(st)-10000:]
+		full := string(stderr)
+		// classify on the complete dump; only the stored copy is shortened
+		parked := dumpAllParked(full)
+		frames := hangFrames(full)
+		st := full
+		if len(st) > 60000 {
+			st = st[:30000] + "\n...\n" + st[len(st)-28000:]
 		}
 		if open == nil {
 			// died outside any case
@@ -359,9 +364,10 @@ func runShard(b *build, prop, tier string, seed int64, shard, nshards int, a *ag
 		// attribute the death to the open case
 		a.mu.Lock()
 		if watchdogFired {
+			watchdogs++
 			a.watchdog++
-			if dumpAllParked(st) {
-				a.viol = append(a.viol, foundViolation{violation: violation{Rule: "hang", FP: prop + "/hang/process-stuck/" + hangFrames(st), Detail: "child made no progress; SIGQUIT dump shows no runnable goroutine of the module or harness"}, Spec: *open, Stderr: st, Shard: shard, Crashed: true})
+			if parked {
+				a.viol = append(a.viol, foundViolation{violation: violation{Rule: "hang", FP: prop + "/hang/process-stuck/" + frames, Detail: "child made no progress; SIGQUIT dump shows no runnable goroutine of the module or harness"}, Spec: *open, Stderr: st, Shard: shard, Crashed: true})
 			} else {
 				a.inconcl = append(a.inconcl, fmt.Sprintf("shard %d: watchdog fired in %s case %d, dump not conclusive", shard, open.Prog, open.Case))
 			}
@@ -517,24 +523,31 @@ func stripTypeParams(fn string) string {
 // the module or the harness is running/runnable/in a syscall.
 func dumpAllParked(st string) bool {
 	blocks := strings.Split(st, "\n\n")
-	seen := false
+	seen, bodySeen := false, false
 	for _, b := range blocks {
 		if !strings.HasPrefix(b, "goroutine ") {
 			continue
 		}
-		if !strings.Contains(b, modPath) && !strings.Contains(b, "vharness") {
-			continue
-		}
-		seen = true
 		hdr := b
 		if i := strings.Index(b, "\n"); i > 0 {
 			hdr = b[:i]
 		}
+		// any goroutine that can still run (other than the runtime's own helpers) makes the dump inconclusive
 		if strings.Contains(hdr, "[running") || strings.Contains(hdr, "[runnable") || strings.Contains(hdr, "[syscall") || strings.Contains(hdr, "[sleep") {
+			if strings.Contains(b, "runtime.bgsweep") || strings.Contains(b, "runtime.bgscavenge") || strings.Contains(b, "runtime.gcBgMarkWorker") || strings.Contains(b, "runtime.forcegchelper") || strings.Contains(b, "os/signal.") {
+				continue
+			}
 			return false
 		}
+		if strings.Contains(b, modPath) || strings.Contains(b, "vharness") {
+			seen = true
+		}
+		// the goroutine that drives the episode must be in the dump, otherwise the dump is incomplete
+		if strings.Contains(b, "vharness.RunBubble.func") || strings.Contains(b, "vharness.epRace") {
+			bodySeen = true
+		}
 	}
-	return seen
+	return seen && bodySeen
 }
 
 func hangFrames(st string) string {
